@@ -19,7 +19,9 @@ from checks.c16 import (native_abort_under_concurrent_update, abort_case, privat
 # ---- known-finding classes (decidable over the failing-input description this check produces)
 def exit_window_event(case, params):
     """F10: the owner retracted its pointer (left a safepoint) while a stopper was reading its state."""
-    return case.get("kind") == "scan-overlap" and case.get("event") == "safepoint exit"
+    # both event kinds: with the poll's exit window (safepoint_or_interrupt) the owner goes on to dispatch the next
+    # instruction while it is being read, with enter_safepoint's window it finishes the current one
+    return case.get("kind") == "scan-overlap" and case.get("event") in ("safepoint exit", "instruction dispatch")
 
 
 def unregistered_thread_stale_global(case, params):
